@@ -8,7 +8,8 @@ THEOREMS = [("Sylvia.Thm.C03", "C03." + t) for t in
             ["at_most_one", "wrapper_accepts_encoded", "wrapper_ok_sound", "unknown_lists_all", "not_single_key_rejected"]] + \
            [("Sylvia.Thm.C03Domain", "C03." + t) for t in ["wrapper_iff_on_domain", "wrapper_accepts_iff_some_part", "inDomainB_sound"]] + \
            [("Sylvia.Thm.C05Gen", "C05.parts_faithful_closed"), ("Sylvia.Thm.Obl.Published", "Obl.published_rule_is_wire_rule"),
-            ("Sylvia.Lemmas.ValuePass", "Sylvia.Serde.normalize_canon"), ("Sylvia.Lemmas.ValuePass", "Sylvia.Serde.decodeFields_sorted")]
+            ("Sylvia.Lemmas.ValuePass", "Sylvia.Serde.normalize_canon"), ("Sylvia.Lemmas.ValuePass", "Sylvia.Serde.decodeFields_sorted")] + \
+           [("Sylvia.Thm.Obl.Wrapper", "Obl.wrapper_forms"), ("Sylvia.Thm.Obl.Tables", "Obl.extraction_complete")]
 
 
 def build_ops(ctx, progs):
